@@ -339,6 +339,27 @@ fn build_items(lang: &str, mode: Mode, raw: Vec<RawItem>, out: &mut Vec<Item>) {
                 // ordinary words for every oracle: none of them is a number or a linking word
                 push(w, Class::Filler, out);
             }
+            57..=71 if mode == Mode::Dirty && b % 8 == 3 => {
+                // one token glued from 2-4 vocabulary words (what a speech-to-text front end or a typo produces, and what
+                // the compound splitters of de / it / nl and any prefix-stripping rule get to see): number word + infix +
+                // any word; conjunction + two number words; or a free mix
+                const INFIX: [&str; 8] = ["i", "y", "e", "und", "en", "et", "s", "-"];
+                let nw = |k: u8| v.number_words[idx(a.rotate_left(k as u32 * 5) ^ (extra[k as usize % 8] as u16) << 8, v.number_words.len())].clone();
+                let any = |k: u8| -> String {
+                    match extra[(k as usize + 3) % 8] % 10 {
+                        0..=2 => v.conj.to_string(),
+                        3..=7 => nw(k),
+                        8 => v.fillers[idx(a.rotate_left(k as u32 * 3), v.fillers.len())].to_string(),
+                        _ => INFIX[extra[k as usize % 8] as usize % 8].to_string(),
+                    }
+                };
+                let w: String = match b / 8 % 3 {
+                    0 => [nw(0), INFIX[extra[0] as usize % 8].to_string(), any(1)].concat(),
+                    1 => [v.conj.to_string(), nw(0), nw(1)].concat(),
+                    _ => (0..2 + extra[1] % 3).map(any).collect::<Vec<_>>().concat(),
+                };
+                push(w, Class::Raw, out);
+            }
             57..=71 if !v.phrases.is_empty() && b % 16 == 5 => {
                 // a multi-word expression the tree's vocabulary files publish, word by word
                 for w in &v.phrases[idx(a, v.phrases.len())] {
